@@ -94,7 +94,7 @@ def batch_case(draw):
     lv = leaves_of(s)
     trees = [[_values_for(draw, lf) for lf in lv] for _ in range(b)]
     elem = [_values_for(draw, lf) for lf in lv]
-    i = draw(st.integers(0, b - 1))
+    i = draw(st.integers(-b, b - 1))     # all indices i, negative ones included (x[i] / .at[i] semantics)
     return {"structure": s, "trees": trees, "element": elem, "index": i,
             "index_kind": draw(st.sampled_from(["int", "np", "jnp"]))}
 
@@ -181,7 +181,7 @@ def eval_batch(case):
         if not same(lf, want):
             fails.append(("transpose.leaf", "stacked leaf != np.stack of inputs",
                           f"leaf {li}: got {np.asarray(lf).tolist()} dtype {lf.dtype} want {want.tolist()} {want.dtype}"))
-    for j in range(b):
+    for j in range(-b, b):
         jdx = j if case["index_kind"] == "int" else jnp.asarray(j, jnp.int32)
         sl = tree_utils.tree_slice(stacked, jdx)
         if jax.tree_util.tree_structure(sl) != sdef:
@@ -201,7 +201,7 @@ def eval_batch(case):
             want = np.stack([np.asarray(r[li]) for r in ref_leaves], 0).copy()
             if want.shape[1:] != np.asarray(el[li]).shape:
                 continue
-            want[i] = np.asarray(el[li])
+            want[i] = np.asarray(el[li])     # NumPy applies the same (possibly negative) index
             if lf.dtype != want.dtype or lf.shape != want.shape:
                 fails.append(("add.dtype_shape", "dtype/shape changed", f"leaf {li}: {lf.dtype}{lf.shape} vs {want.dtype}{want.shape}"))
             elif lf[i].tolist() != want[i].tolist():
